@@ -1,7 +1,6 @@
 package main
 
 import (
-	_ "golang.org/x/crypto/sha3" // registers crypto.SHA3_* so that TPM names tagged with SHA-3 algorithms decode (a relying party binary may well link it)
 	"crypto"
 	"crypto/ecdsa"
 	"crypto/ed25519"
@@ -15,6 +14,7 @@ import (
 	_ "embed"
 	"encoding/hex"
 	"encoding/json"
+	_ "golang.org/x/crypto/sha3" // registers crypto.SHA3_* so that TPM names tagged with SHA-3 algorithms decode (a relying party binary may well link it)
 	"math/big"
 )
 
